@@ -3,6 +3,7 @@ package main
 import (
 	"fmt"
 	"math"
+	"math/big"
 	"strings"
 
 	"github.com/zclconf/go-cty/cty"
@@ -41,6 +42,9 @@ func unknownAlphabet(ty cty.Type, thorough bool) []cty.Value {
 		bounds := []cty.Value{
 			cty.Zero, cty.NumberIntVal(-1), cty.NumberIntVal(math.MaxInt64), cty.NumberIntVal(math.MinInt64), cty.NumberUIntVal(1 << 63), cty.NumberUIntVal(math.MaxUint64),
 			parseNum("18446744073709551617"), cty.NumberFloatVal(0.5), parseNum("0.1"), cty.NumberFloatVal(0.1), parseNum("1e30"), parseNum("-0.80000000000000000001"),
+			// short mantissa, exponent below / at the edge of the float64 range
+			cty.NumberVal(new(big.Float).SetMantExp(big.NewFloat(1.5), -1100)), cty.NumberVal(new(big.Float).SetMantExp(big.NewFloat(-1.5), -1100)),
+			cty.NumberFloatVal(math.SmallestNonzeroFloat64),
 		}
 		if thorough {
 			bounds = append(bounds, cty.NumberFloatVal(math.MaxFloat32), cty.NumberFloatVal(math.MaxFloat64), parseNum("123456789012345678901234567890.5"), cty.NumberFloatVal(1e-7), bigIntNum(pow2(1024)), cty.NumberIntVal(1<<53+1))
@@ -50,7 +54,9 @@ func unknownAlphabet(ty cty.Type, thorough bool) []cty.Value {
 			for _, inc := range []bool{true, false} {
 				inc := inc
 				add(func() cty.Value { return cty.UnknownVal(ty).Refine().NumberRangeLowerBound(b, inc).NewValue() })
-				add(func() cty.Value { return cty.UnknownVal(ty).Refine().NotNull().NumberRangeUpperBound(b, inc).NewValue() })
+				add(func() cty.Value {
+					return cty.UnknownVal(ty).Refine().NotNull().NumberRangeUpperBound(b, inc).NewValue()
+				})
 			}
 		}
 		add(func() cty.Value {
@@ -78,7 +84,9 @@ func unknownAlphabet(ty cty.Type, thorough bool) []cty.Value {
 		}
 		for _, p := range prefixes {
 			p := p
-			add(func() cty.Value { return cty.UnknownVal(ty).Refine().StringPrefixFull(cty.NormalizeString(p)).NewValue() })
+			add(func() cty.Value {
+				return cty.UnknownVal(ty).Refine().StringPrefixFull(cty.NormalizeString(p)).NewValue()
+			})
 			add(func() cty.Value { return cty.UnknownVal(ty).Refine().NotNull().StringPrefix(p).NewValue() })
 		}
 	case ty.IsCollectionType():
@@ -137,12 +145,14 @@ func rangeIncludes(a, b cty.Value) (bool, string) {
 		bl, bli := rb.NumberLowerBound()
 		ah, ahi := ra.NumberUpperBound()
 		bh, bhi := rb.NumberUpperBound()
-		unb := func(v cty.Value, sign int) bool { return !v.IsKnown() || v.IsNull() || (isInf(v) && bf(v).Sign() == sign) }
+		unb := func(v cty.Value, sign int) bool {
+			return !v.IsKnown() || v.IsNull() || (isInf(v) && bf(v).Sign() == sign)
+		}
 		if !unb(al, -1) {
 			if unb(bl, -1) {
 				return false, "decoded value has a lower bound, the original had none"
 			}
-			c := numCmp(al, bl)
+			c := numCmpDoc(al, bl)
 			if c > 0 || (c == 0 && !ali && bli) {
 				return false, fmt.Sprintf("decoded lower bound %#v (inclusive=%v) is narrower than the original %#v (inclusive=%v)", al, ali, bl, bli)
 			}
@@ -151,7 +161,7 @@ func rangeIncludes(a, b cty.Value) (bool, string) {
 			if unb(bh, 1) {
 				return false, "decoded value has an upper bound, the original had none"
 			}
-			c := numCmp(ah, bh)
+			c := numCmpDoc(ah, bh)
 			if c < 0 || (c == 0 && !ahi && bhi) {
 				return false, fmt.Sprintf("decoded upper bound %#v (inclusive=%v) is narrower than the original %#v (inclusive=%v)", ah, ahi, bh, bhi)
 			}
